@@ -146,6 +146,20 @@ CHECKS = {
              "router.go, cert.go and autocert's pre-ACME decisions by correspondence including real Router.GetCertificate calls.",
         note="No axioms. TLS handshake, ACME exchange and non-ASCII IDNA not modelled; ACME challenge paths are residue. Repaired defect (IPv6 redirect lost brackets) kept as refuted lemma on the pinned function.",
         technique="Coq proof (per-byte case analysis, invariants over exec) + kernel-evaluated differential correspondence on a virtual clock", ref="§7 C16"),
+    "C17": dict(
+        text="Theorems over every event trace accepted by the timing view model/M5time.v (props/C17.v), for traces in which no goroutine was parked at a "
+             "harness yield: deploy / rollout deploy return within deploy_timeout + drain_timeout of their issue, pause / stop within drain_timeout, the other "
+             "commands at their issue time; a return happens at the time of an earlier event of the command's chain (own step, waiter event, end of a Drain "
+             "call); a Drain call's wait ends at its begin, a request end, another drain's cancellation or exactly drain_timeout after its begin; after a "
+             "failed deploy, a successful redeploy (replaced balancer) and a remove the targets concerned have no live probe loop in any later state, and any "
+             "later probe to such a name is owed to another target; pinned D4 refuted by a witness; link proved: accepted => bounds part of the monitor. "
+             "Correspondence: adversarial scenarios on the real code under the virtual clock (targets never answering / answering at the deploy deadline "
+             "+-1 ns / flapping; requests hanging or ending at the drain deadline +-1 ns; timeouts incl. 0 and 1 ns; overlapping commands; >= 12 probe "
+             "intervals observed after returns); every recorded trace must be accepted and satisfy the monitor c17_ok.",
+        note="No axioms. Zero CPU time and exact timers are acceptor rules validated on every trace, not hypotheses; traces with armed yields are checked structurally only; "
+             "promptness is a chain-event property, not the closed formula; the probe part of the monitor is tied to the view only by evaluating both on every trace; "
+             "no upgraded connections; D11/D14 observed, undecided.",
+        technique="Coq proof (state, frame and history invariants over an event-trace acceptor) + kernel-evaluated trace acceptance and monitor", ref="§7 C17"),
     "C18": dict(
         text="props/C18.v: accesses guarded by their lock are ordered by happens-before under Mutex/RWMutex semantics (locks_sound); a ranked lock order "
              "excludes cyclic waits; soundness of check_guarded / lock_order_acyclic w.r.t. the call paths of the extracted facts; end-to-end c18_no_race / "
